@@ -185,6 +185,69 @@ def shared_id_collections():
     return out
 
 
+def centre_edge_collections():
+    """A few dozen boxes on coordinates without a short binary expansion (sevenths, tenths), plus
+    one stroke (a box of zero width, or of zero height) whose position coincides - to the last
+    bit, and 1..8 units in the last place either side - with the mean of all box midpoints: the
+    point about which an index node divides its boxes, however that mean is summed.  Queries
+    touch the stroke from either side and along it.  [(boxes, queries)]"""
+    import math                             # pylint: disable=import-outside-toplevel
+
+    def running_mean(values):
+        mean = 0
+        for val in values:
+            mean += val / len(values)
+        return mean
+
+    out = []
+    for count in (12, 40, 150):
+        boxes = [(k, ((k * 37) % 101 / 7 + k / 10, (k * 53) % 89 / 7,
+                      (k * 37) % 101 / 7 + k / 10 + (k % 9 + 1) / 3, (k * 53) % 89 / 7 + (k % 7 + 1) / 3))
+                 for k in range(count)]
+        for axis in (0, 1):
+            mids = [b[axis] / 2 + b[axis + 2] / 2 for _i, b in boxes]
+            guess = sum(mids) / len(mids)
+            for _round in range(4):
+                guess = running_mean(mids + [guess])
+            spots, low, high = [guess], guess, guess
+            for _step in range(8):
+                low, high = math.nextafter(low, -math.inf), math.nextafter(high, math.inf)
+                spots += [low, high]
+            for spot in spots:
+                if axis == 0:
+                    stroke = (spot, 4.0, spot, 6.0)
+                    queries = [(spot, 0.0, spot, 20.0), (spot, 4.5, spot + 1.0, 5.0),
+                               (spot - 1.0, 4.5, spot, 5.0), (spot, 5.0, spot, 5.0)]
+                else:
+                    stroke = (4.0, spot, 6.0, spot)
+                    queries = [(0.0, spot, 40.0, spot), (4.5, spot, 5.0, spot + 1.0),
+                               (4.5, spot - 1.0, 5.0, spot), (5.0, spot, 5.0, spot)]
+                for place in (len(boxes), 0, len(boxes) // 2):
+                    coll = boxes[:place] + [(9999, stroke)] + boxes[place:]
+                    out.append((coll, queries + [(-1.0, -1.0, 99.0, 99.0)]))
+    return out
+
+
+def _centre_chunk(items):
+    part = core.Part()
+    for boxes, queries in items:
+        bad, depth = check_collection(boxes, queries)
+        part.count("collections")
+        part.count("centre_edge_collections")
+        part.count("queries", 2 * len(queries))
+        part.count("nontrivial")
+        part.counters["max_depth"] = max(part.counters.get("max_depth", 0), depth)
+        for clause, msg, query, asked in bad:
+            part.violation(f"{clause}:centre:{len(boxes)}:{core.digest(boxes)}:{query}",
+                           msg.replace(repr(boxes), f"<{len(boxes)} boxes, one stroke "
+                                                    f"{[b for i, b in boxes if i == 9999][0]} on the "
+                                                    f"mean of the midpoints>")[:700],
+                           {"kind": "boxes", "boxes": [[i, list(b)] for i, b in boxes],
+                            "query": list(query) if query else None,
+                            "asked": [list(q) for q in asked] if asked else None})
+    return part
+
+
 def crowded_collections():
     """257 and more boxes that all fall into one quadrant (nested, duplicated, sharing a corner,
     strokes through one point): nothing separates them, the node must become a leaf - at any
@@ -312,7 +375,8 @@ def _subset_chunk(masks):
 
 def _dispatch(job):
     return {"multi": _multiset_chunk, "subset": _subset_chunk,
-            "multiscale": _multiscale_chunk, "huge": _huge_chunk}[job[0]](job[1])
+            "multiscale": _multiscale_chunk, "huge": _huge_chunk,
+            "centre": _centre_chunk}[job[0]](job[1])
 
 
 def run(ctx):
@@ -367,6 +431,8 @@ def run(ctx):
         jobs.append(("multiscale", [crowd]))
     for huge in huge_collections(ctx.thorough):
         jobs.insert(0, ("huge", [huge]))        # the long ones first
+    for chunk in core.split(centre_edge_collections(), 16):
+        jobs.append(("centre", chunk))
     part = core.fan_out(ctx, _dispatch, jobs)
     # the empty collection
     bad, _depth = check_collection([], q_small)
